@@ -1,6 +1,7 @@
 package main
 
 import (
+	"runtime"
 	"encoding/json"
 	"flag"
 	"fmt"
@@ -283,6 +284,10 @@ func cmdCheck(args []string) int {
 		return fail("no obligations generated for " + *prop + " (vacuous check)")
 	}
 	tGen := time.Since(t0).Seconds() - tLoad
+	// solver limits are wall-clock: on an overloaded machine (load average above the core count) they are
+	// scaled so that a busy host does not turn valid obligations into time-outs
+	lf := loadFactor()
+	secs *= lf
 	dischargeAll(obls, scratch, secs, parallelism())
 	// retry unknowns once at 3x on quick tier
 	var retry []*Obligation
@@ -291,8 +296,12 @@ func cmdCheck(args []string) int {
 			retry = append(retry, o)
 		}
 	}
-	if len(retry) > 0 && len(retry) <= 8 {
-		dischargeAll(retry, scratch, secs*3, parallelism())
+	if len(retry) > 0 && (len(retry) <= 8 || lf > 1 || loadFactor() > 1) {
+		par := parallelism()
+		if len(retry) > 8 && par > 4 {
+			par = 4
+		}
+		dischargeAll(retry, scratch, secs*3, par)
 	}
 	// verdicts
 	kf := loadKnown(*known)
@@ -433,6 +442,31 @@ func cmdCheck(args []string) int {
 		os.WriteFile(*evPath, data, 0o644)
 	}
 	return rc
+}
+
+// loadFactor: ceil(1-minute load average / cores), clamped to [1,6].
+func loadFactor() int {
+	b, err := os.ReadFile("/proc/loadavg")
+	if err != nil {
+		return 1
+	}
+	f := strings.Fields(string(b))
+	if len(f) == 0 {
+		return 1
+	}
+	l, err := strconv.ParseFloat(f[0], 64)
+	if err != nil {
+		return 1
+	}
+	n := runtime.NumCPU()
+	k := int(l/float64(n) + 0.999)
+	if k < 1 {
+		k = 1
+	}
+	if k > 6 {
+		k = 6
+	}
+	return k
 }
 
 // parallelism: number of obligations discharged at once (GOVC_PAR overrides; default 6 because the
